@@ -87,9 +87,19 @@ class _Expr(ast.NodeTransformer):
             for n in ast.walk(fnode):
                 if isinstance(n, ast.Name) and isinstance(n.ctx, (ast.Store, ast.Del)):
                     count[n.id] = count.get(n.id, 0) + 1
+            self.all_defs = {}
             for n in ast.walk(fnode):
                 if isinstance(n, ast.Assign) and len(n.targets) == 1 and isinstance(n.targets[0], ast.Name) and count.get(n.targets[0].id) == 1:
                     self.defs[n.targets[0].id] = n.value
+                if isinstance(n, ast.Assign) and len(n.targets) == 1 and isinstance(n.targets[0], ast.Name):
+                    self.all_defs.setdefault(n.targets[0].id, []).append(n.value)
+            # a name bound in several branches to calls of the same shape (`products = product(A, B)` / `products = product(A, [b])`)
+            self.arity_defs = {}
+            for nm, vals in self.all_defs.items():
+                if count.get(nm) == len(vals) and all(isinstance(v, ast.Call) and dotted(v.func) in ("product", "itertools.product", "zip") and not v.keywords
+                                                       and not any(isinstance(a, ast.Starred) for a in v.args) for v in vals) \
+                        and len({len(v.args) for v in vals}) == 1:
+                    self.arity_defs[nm] = vals[0]
 
     @staticmethod
     def _getattr_default(node):
@@ -221,6 +231,27 @@ class _Expr(ast.NodeTransformer):
         enumerate / dict.items() are tuples of exactly that many items, so unpacking in the target and indexing are the same"""
         for g in node.generators:
             t = g.target
+            if isinstance(t, ast.Name) and not isinstance(node, ast.DictComp):
+                # f(*p) for p in product(A, B)  ->  f(p[0], p[1]): the elements are tuples of exactly that many items
+                it0 = g.iter
+                if isinstance(it0, ast.Name) and it0.id in getattr(self, "defs", {}):
+                    it0 = self.defs[it0.id]
+                elif isinstance(it0, ast.Name) and it0.id in getattr(self, "arity_defs", {}):
+                    it0 = self.arity_defs[it0.id]
+                d0 = dotted(it0.func) if isinstance(it0, ast.Call) else None
+                if d0 in ("product", "itertools.product", "zip") and len(it0.args) >= 2 and not it0.keywords \
+                        and not any(isinstance(a, ast.Starred) for a in it0.args):
+                    n0 = len(it0.args)
+                    for c in ast.walk(node.elt):
+                        if isinstance(c, ast.Call) and any(isinstance(a, ast.Starred) and isinstance(a.value, ast.Name) and a.value.id == t.id for a in c.args):
+                            new_args = []
+                            for a in c.args:
+                                if isinstance(a, ast.Starred) and isinstance(a.value, ast.Name) and a.value.id == t.id:
+                                    new_args += [ast.Subscript(value=ast.Name(id=t.id, ctx=ast.Load()), slice=ast.Constant(value=i), ctx=ast.Load()) for i in range(n0)]
+                                else:
+                                    new_args.append(a)
+                            c.args = new_args
+                continue
             if not (isinstance(t, ast.Tuple) and t.elts and all(isinstance(e, ast.Name) for e in t.elts)):
                 continue
             it = g.iter
